@@ -98,6 +98,19 @@ fn views_one(ctx: &mut Ctx, n: &Num) {
             }
         }
     }
+    // the decimal text of a finite number denotes exactly that number, in its own class
+    if n.is_finite() {
+        match guard(|| format!("{}", lib)) {
+            Err(p) => ctx.panic_violation("Number::fmt", &p, &info),
+            Ok(text) => {
+                let back = crate::refjson::parse(text.as_bytes(), crate::refjson::Mode::Strict).ok().map(|p| p.tree);
+                let want = Tree::Num(*n).text_norm();
+                if !matches!(&back, Some(b) if b.same_encoding(&want)) {
+                    ctx.violation("Display/denotes-another-number", || format!("printed {:?}, read back as {:?} ; {}", text, back.map(|b| b.show()), info()));
+                }
+            }
+        }
+    }
     // the same views through the byte-level casts on a scalar document
     if ctx.case_no % 3 == 0 {
         let doc = refcodec::encode(&Tree::Num(*n));
@@ -262,6 +275,50 @@ fn order_pair(ctx: &mut Ctx, a: &Num, b: &Num) {
             }
             if eq != (ab == Ordering::Equal) || pc != Some(ab) {
                 ctx.violation("cmp/eq-inconsistent", || format!("eq={} cmp={:?} partial={:?} ; {}", eq, ab, pc, info()));
+            }
+        }
+    }
+}
+
+/// the same order and equality as the byte-level functions see them: numbers inside documents,
+/// not in last position (so that a wrong payload width shifts what follows), and inside arrays
+/// of hundreds of elements (beyond what a linear scan is kept for)
+fn order_in_documents(ctx: &mut Ctx, a: &Num, b: &Num, wide: bool) {
+    let info = || format!("a={} b={}", a.show(), b.show());
+    let e = refnum::cmp(a, b);
+    ctx.count("order.in-documents");
+    let tail = [Tree::Str("tail".into()), Tree::Num(Num::U(300)), Tree::Arr(vec![Tree::Num(Num::I(-1))])];
+    let mk = |n: &Num| {
+        let mut v = vec![Tree::Num(*n)];
+        v.extend(tail.iter().cloned());
+        v
+    };
+    let (da, db) = (refcodec::encode(&Tree::Arr(mk(a))), refcodec::encode(&Tree::Arr(mk(b))));
+    let (oa, ob) = (refcodec::encode(&Tree::Obj(vec![("a".into(), Tree::Num(*a)), ("b".into(), Tree::Num(Num::U(7)))])), refcodec::encode(&Tree::Obj(vec![("a".into(), Tree::Num(*b)), ("b".into(), Tree::Num(Num::U(7)))])));
+    match guard(|| (jsonb::compare(&da, &db).map_err(|e| format!("{:?}", e)), jsonb::compare(&oa, &ob).map_err(|e| format!("{:?}", e)), jsonb::contains(&da, &db), jsonb::contains(&oa, &ob))) {
+        Err(p) => ctx.panic_violation("compare/contains(numbers in documents)", &p, &info),
+        Ok((ca, co, na, no)) => {
+            if ca != Ok(e) || co != Ok(e) {
+                ctx.violation(&format!("compare(documents)/wrong-order/{}", order_sig(a, b)), || format!("arrays: {:?} objects: {:?} exact order of the numbers: {:?} (the rest is equal) ; {}", ca, co, e, info()));
+            }
+            let eq = e == Ordering::Equal;
+            // (the array also holds 300, which a second number equal to 300 matches)
+            let eq_arr = eq || refnum::eq(b, &Num::U(300));
+            if na != eq_arr || no != eq {
+                ctx.violation(&format!("contains(documents)/wrong/{}", order_sig(a, b)), || format!("arrays: {} objects: {} but the numbers are {} ; {}", na, no, if eq { "equal" } else { "different" }, info()));
+            }
+        }
+    }
+    if wide {
+        let mut left: Vec<Tree> = (0..300).map(|k| Tree::Str(format!("s{}", k))).collect();
+        left.insert(150, Tree::Num(*a));
+        let (l, r) = (refcodec::encode(&Tree::Arr(left)), refcodec::encode(&Tree::Arr(vec![Tree::Num(*b)])));
+        match guard(|| jsonb::contains(&l, &r)) {
+            Err(p) => ctx.panic_violation("contains(wide array)", &p, &info),
+            Ok(c) => {
+                if c != (e == Ordering::Equal) {
+                    ctx.violation(&format!("contains(wide array)/wrong/{}", order_sig(a, b)), || format!("contains={} ; {}", c, info()));
+                }
             }
         }
     }
@@ -451,9 +508,12 @@ pub fn run(ctx: &mut Ctx) {
         }
         // all pool pairs
         let lim = if ctx.miri { 40 } else { pool.len() };
-        for a in pool.iter().take(lim) {
-            for b in pool.iter().take(lim) {
+        for (x, a) in pool.iter().take(lim).enumerate() {
+            for (y, b) in pool.iter().take(lim).enumerate() {
                 order_pair(ctx, a, b);
+                if (x + y) % 5 == 0 && !ctx.miri {
+                    order_in_documents(ctx, a, b, (x + y) % 35 == 0);
+                }
             }
         }
         ctx.exhaustive.insert("pool_pairs(boundary pool x boundary pool)".into(), !ctx.miri);
@@ -491,6 +551,9 @@ pub fn run(ctx: &mut Ctx) {
             _ => gen::num(&mut rng, true),
         };
         order_pair(ctx, &a, &b);
+        if i % 8 == 5 {
+            order_in_documents(ctx, &a, &b, i % 64 == 5);
+        }
         if i % 4 == 0 {
             let lit = literal(&mut rng);
             text_casts(ctx, &lit);
